@@ -731,21 +731,53 @@ impl Ast {
     /// (`\\1{2}`: two copies, nothing to dispute) does not count as a loop over a
     /// possibly-empty body.
     pub fn backref_in_disputed_position_strict(&self) -> bool {
-        fn nl(a: &Ast) -> bool {
+        // Groups that are set, and not empty, whenever anything after them is tried: mandatory
+        // members of the top-level sequence (through groups, not through alternations or
+        // quantifiers) whose body cannot be empty. A back-reference to such a group is never
+        // empty, so a body made of it is not a possibly-empty body.
+        fn spine(a: &Ast, def: &mut Vec<usize>) {
             match a {
-                Ast::Seq(v) | Ast::Alt(v) => v.iter().any(nl),
+                Ast::Seq(v) => v.iter().for_each(|x| spine(x, def)),
+                Ast::Group(k, b) => {
+                    spine(b, def);
+                    if !b.may_be_empty_given(def) {
+                        def.push(*k);
+                    }
+                }
+                Ast::NonCap(b) => spine(b, def),
+                _ => {}
+            }
+        }
+        fn nl(a: &Ast, def: &[usize]) -> bool {
+            match a {
+                Ast::Seq(v) | Ast::Alt(v) => v.iter().any(|x| nl(x, def)),
                 Ast::Rep(b, min, max, _) => {
                     if matches!(**b, Ast::BackRef(_)) && Some(*min) == *max {
                         false
                     } else {
-                        b.may_be_empty() || nl(b)
+                        b.may_be_empty_given(def) || nl(b, def)
                     }
                 }
-                Ast::Group(_, b) | Ast::NonCap(b) => nl(b),
+                Ast::Group(_, b) | Ast::NonCap(b) => nl(b, def),
                 _ => false,
             }
         }
-        self.has_backref() && nl(self)
+        let mut def = vec![];
+        spine(self, &mut def);
+        self.has_backref() && nl(self, &def)
+    }
+
+    /// `may_be_empty` when back-references to the groups in `def` are known not to be empty.
+    pub fn may_be_empty_given(&self, def: &[usize]) -> bool {
+        match self {
+            Ast::BackRef(k) => !def.contains(k),
+            Ast::Empty | Ast::Bol | Ast::Eol => true,
+            Ast::Lit(_) | Ast::Dot | Ast::Class(_) | Ast::Esc(_) => false,
+            Ast::Seq(v) => v.iter().all(|x| x.may_be_empty_given(def)),
+            Ast::Alt(v) => v.iter().any(|x| x.may_be_empty_given(def)),
+            Ast::Rep(b, min, max, _) => *min == 0 || *max == Some(0) || b.may_be_empty_given(def),
+            Ast::Group(_, b) | Ast::NonCap(b) => b.may_be_empty_given(def),
+        }
     }
 
     /// Maximum nesting depth of quantifiers.
